@@ -255,9 +255,14 @@ def run(prog: Program, res: Result, tier: str) -> None:
     # ---- R5 per-row processing (reference definitions) ----------------------------------------------------------
     from .. import kernelspec
     ru = prog.func(PFITS, "PFITSFile.read_subint")
-    for fn, name, what in ((ru, "read_subint", "unpack -> TPF shape check -> zero offset -> this row's scales+offsets -> this row's weights"),
+    extra = [(prog.func(PFITS, f"PFITSFile.{n}"), n, w) for n, w in (
+        ("read_weights", "row isub's DAT_WTS, first nchans entries"),
+        ("read_scales", "row isub's DAT_SCL as (npol, nchans)"),
+        ("read_offsets", "row isub's DAT_OFFS as (npol, nchans)"),
+        ("read_subint_pol", "polarisation selection: Coherence (AA+BB)/sqrt2, Stokes I, Intensity"))]
+    for fn, name, what in [(ru, "read_subint", "unpack -> TPF shape check -> zero offset -> this row's scales+offsets -> this row's weights"),
                            (rs, "read_subints", "rows startsub..startsub+nsubs-1 each read with the caller's (poln_select, scloffs, weights), "
-                                                "concatenated along time, channel axis flipped iff foff > 0, nothing else applied")):
+                                                "concatenated along time, channel axis flipped iff foff > 0, nothing else applied")] + extra:
         verdict, why = kernelspec.compare(fn, name)
         if verdict == "incomparable":
             raise AnalysisError(f"{name} cannot be compared with its reference definition: {why[0]}")
@@ -267,7 +272,7 @@ def run(prog: Program, res: Result, tier: str) -> None:
     res.floor("R2", 6)
     res.floor("R3", 8)
     res.floor("R4", 2)
-    res.floor("R5", 2)
+    res.floor("R5", 6)
 
 
 R = "sigpyproc/readers.py"
@@ -303,6 +308,12 @@ MUTANTS += [
     {"id": "c18-weights-once-per-block", "file": P, "expect": "C18.R5",
      "old": "                scloffs=scloffs,\n                weights=weights,\n            )\n            data_list.append(sdata)\n        data = np.concatenate(data_list)\n",
      "new": "                scloffs=scloffs,\n                weights=False,\n            )\n            data_list.append(sdata)\n        data = np.concatenate(data_list)\n        if weights:\n            data = (data * self.read_weights(startsub)).astype(np.float32, copy=False)\n"},
+    {"id": "c18-weights-of-row-zero", "file": P, "expect": "C18.R5",
+     "old": "        weights = self._fits[\"SUBINT\"].data[isub][\"DAT_WTS\"]", "new": "        weights = self._fits[\"SUBINT\"].data[0][\"DAT_WTS\"]"},
+    {"id": "c18-offsets-from-scales", "file": P, "expect": "C18.R5",
+     "old": "        offsets = self._fits[\"SUBINT\"].data[isub][\"DAT_OFFS\"]", "new": "        offsets = self._fits[\"SUBINT\"].data[isub][\"DAT_SCL\"]"},
+    {"id": "c18-coherence-no-sqrt2", "file": P, "expect": "C18.R5",
+     "old": "            scale = 1.0 / np.sqrt(2.0)", "new": "            scale = 1.0 / 2.0"},
     {"id": "c18-scales-of-row-zero", "file": P, "expect": "C18.R5",
      "old": "            data = data * self.read_scales(isub) + self.read_offsets(isub)", "new": "            data = data * self.read_scales(0) + self.read_offsets(isub)"},
 ]
